@@ -639,6 +639,9 @@ class ModelSpec:
         """
         return self.update(
             formula=self.formula.differentiate(*wrt, use_sympy=use_sympy),
+            # The recorded structure describes the columns of the original
+            # formula, not those of its derivative.
+            structure=None,
         )
 
     # Only include dataclass fields when pickling.
